@@ -19,7 +19,7 @@ theorem cmpKey_ok (kt : KeyType) (a b : List Nat) (ha : KeyOK kt a) (hb : KeyOK 
     obtain ⟨x, hx, rfl⟩ := ha rfl
     obtain ⟨y, hy, rfl⟩ := hb rfl
     have := cmpKey_vu64 x y hx hy
-    unfold vu64Key at this
+    rw [vu64Key_eq, vu64Key_eq] at this
     rw [this]
     congr 1
     apply decide_eq_decide.mpr
